@@ -1218,6 +1218,113 @@ def check_soc_agg(run: Run, prog: Program) -> None:
         raise AnalysisError(f"{fn.qual}: no path aggregates soc / soc_upper_bound / soc_lower_bound from the batteries")
 
 
+# --------------------------------------------------------------------------------------------- GRP
+PB = "microgrid._power_distributing.result:PowerBounds"
+
+
+def _fold_over(e: ast.AST | None, fn: str, coll: str) -> str | None:
+    """attr when `e` is `<fn>(v.<attr> for v in <coll>)` (generator or list, one clause, no filter)."""
+    if not (isinstance(e, ast.Call) and u(e.func) == fn and len(e.args) == 1 and not e.keywords
+            and isinstance(e.args[0], (ast.GeneratorExp, ast.ListComp)) and len(e.args[0].generators) == 1):
+        return None
+    g = e.args[0].generators[0]
+    elt = e.args[0].elt
+    if g.ifs or g.is_async or not isinstance(g.target, ast.Name) or u(g.iter) != coll:
+        return None
+    if isinstance(elt, ast.Attribute) and isinstance(elt.value, ast.Name) and elt.value.id == g.target.id:
+        return elt.attr
+    return None
+
+
+def check_group_bounds(run: Run, prog: Program) -> None:
+    """The power bounds of a battery group (what the cap of a group, the enforced bounds and the advertised
+    bounds are computed from) aggregate the members' bounds so that the group's range is within what the
+    members accept together:
+      inclusion_upper / inclusion_lower   the SUM of the members' own inclusion bound of that side (not the
+                                          widest member times the count, not another field, not another
+                                          collection);
+      exclusion_upper / exclusion_lower   the largest / smallest member bound times the number of members
+                                          (every member, taking an equal part, stays out of its zone);
+    and the per-battery record handed to the aggregation carries each battery's own `power_<field>_bound`.
+    The aggregating function is bound by role: the callee whose result becomes `self.power_bounds` of
+    AggregatedBatteryData."""
+    te = TermEval()
+    init = prep(prog, f"{MOD}:AggregatedBatteryData.__init__")
+    flds = fields_of(prog, PB)
+    calls: list[tuple[Any, ast.Call]] = []
+    for p, _st in regions(init.node)[0].paths:
+        for _e, tgt, val in writes(p, lambda t, _v: u(t) == "self.power_bounds"):
+            if isinstance(val, ast.Call) and isinstance(val.func, ast.Name) and val.func.id in init.module.functions:
+                calls.append((p, val))
+            else:
+                raise AnalysisError(f"{init.qual}: self.power_bounds is not the result of a module function: {u(val)[:80]}")
+    if not calls:
+        raise AnalysisError(f"{init.qual}: self.power_bounds is never set")
+    names = {c.func.id for _p, c in calls}  # type: ignore[attr-defined]
+    if len(names) != 1:
+        raise AnalysisError(f"{init.qual}: several aggregating functions {sorted(names)}")
+    agg = prep(prog, f"{MOD}:{next(iter(names))}")
+    run.analysed(agg.qual)
+    params = agg.params
+    if not params:
+        raise AnalysisError(f"{agg.qual}: no parameter")
+    coll = params[0]
+    # (1) the record per battery
+    for p, c in calls:
+        arg = c.args[0] if c.args else (c.keywords[0].value if c.keywords else None)
+        if isinstance(arg, ast.Call) and u(arg.func) in ("list", "tuple") and len(arg.args) == 1:
+            arg = arg.args[0]
+        elem = ctor = None
+        if isinstance(arg, ast.Call) and u(arg.func) == "map" and len(arg.args) == 2 and isinstance(arg.args[0], ast.Lambda) \
+                and len(arg.args[0].args.args) == 1:
+            elem, ctor = arg.args[0].args.args[0].arg, arg.args[0].body
+        elif isinstance(arg, (ast.ListComp, ast.GeneratorExp)) and len(arg.generators) == 1 \
+                and isinstance(arg.generators[0].target, ast.Name) and not arg.generators[0].ifs:
+            elem, ctor = arg.generators[0].target.id, arg.elt
+        if isinstance(ctor, ast.Call) and callee(ctor) == "PowerBounds" and elem is not None:
+            a = ctor_args(ctor, flds, init.qual)
+            ok = set(a) == set(flds) and all(u(v) == f"{elem}.power_{k}_bound" for k, v in a.items())
+            run.check(ok, "C02.GRP", init.qual, u(ctor)[:160],
+                      "the bounds record of a battery does not carry that battery's own bound in every field "
+                      "(`<field> = battery.power_<field>_bound`): the group's bounds are aggregated from the "
+                      "wrong limits", node=at(p.lineno or init.node.lineno), file=init.file,
+                      instance=f"{init.qual}: per-battery record carries the battery's own four bounds")
+    # (2) the aggregate
+    n = 0
+    for p, _st in regions(agg.node)[0].paths:
+        if p.exit != "return":
+            continue
+        if not (isinstance(p.ret, ast.Call) and callee(p.ret) == "PowerBounds"):
+            raise AnalysisError(f"{agg.qual}: result is not a PowerBounds(...): {u(p.ret)[:80]}")
+        n += 1
+        a = ctor_args(p.ret, flds, agg.qual)
+        for fld in flds:
+            e = a.get(fld)
+            own = (fld, f"power_{fld}_bound")
+            if fld.startswith("inclusion"):
+                ok = _fold_over(e, "sum", coll) in own
+                want = f"sum(b.{fld} for b in {coll})"
+                why = ("the group's inclusion bound is not the sum of its members' inclusion bounds of that side "
+                       "(e.g. the widest member times the count): with one derated member the group's cap, the "
+                       "enforced and the advertised bounds exceed what the members accept together and the "
+                       "inverters are commanded beyond it")
+            else:
+                ext = "max" if fld.endswith("upper") else "min"
+                ok = isinstance(e, ast.BinOp) and isinstance(e.op, ast.Mult) and any(
+                    _fold_over(x, ext, coll) in own and u(y) == f"len({coll})"
+                    for x, y in ((e.left, e.right), (e.right, e.left)))
+                want = f"{ext}(b.{fld} for b in {coll}) * len({coll})"
+                why = (f"the group's exclusion bound is not the {ext}imum member bound times the number of "
+                       "members: a group total outside the aggregated zone can leave a member, taking its equal "
+                       "part, inside its own exclusion zone")
+            run.check(ok, "C02.GRP", agg.qual, f"{fld} = {u(e)[:120] if e is not None else '?'} (needs {want})", why,
+                      node=at(p.lineno), file=agg.file, instance=f"{agg.qual}: {fld} aggregated as {want.split('(')[0]}"
+                      + ("" if fld.startswith("inclusion") else " * count"))
+    if n < 1:
+        raise AnalysisError(f"{agg.qual}: no returning path")
+    del te
+
+
 # --------------------------------------------------------------------------------------------- ADM
 def _own_params(fn: FuncInfo) -> list[str]:
     ps = fn.params
@@ -1542,6 +1649,22 @@ CONTROLS = [
     ("deficit covering loop guard negated", MOD,
      "            while not is_close_to_zero(deficit) and deficit < 0.0:\n",
      "            while is_close_to_zero(deficit) or not deficit < 0.0:\n", "C02.BOOK"),
+    ("group inclusion bound aggregated as widest member times count", MOD,
+     "    power_inclusion_upper_bound = sum(\n        bounds.inclusion_upper for bounds in battery_metrics\n    )\n",
+     "    power_inclusion_upper_bound = max(\n        bounds.inclusion_upper for bounds in battery_metrics\n"
+     "    ) * len(battery_metrics)\n", "C02.GRP"),
+    ("group exclusion bound aggregated as a plain sum", MOD,
+     "    power_exclusion_upper_bound = max(\n        bounds.exclusion_upper for bounds in battery_metrics\n"
+     "    ) * len(battery_metrics)\n",
+     "    power_exclusion_upper_bound = sum(\n        bounds.exclusion_upper for bounds in battery_metrics\n    )\n",
+     "C02.GRP"),
+    ("per-battery record takes the inclusion bound from the exclusion field", MOD,
+     "                        inclusion_upper=metrics.power_inclusion_upper_bound,\n",
+     "                        inclusion_upper=metrics.power_exclusion_upper_bound,\n", "C02.GRP"),
+    ("adjustable requests tested with abs() against the upper exclusion bound only",
+     "microgrid._power_distributing._component_managers._battery_manager",
+     "            if bounds.exclusion_lower < power < bounds.exclusion_upper:",
+     "            if abs(power) < bounds.exclusion_upper:", "C02.ADM"),
     ("split arm stores no set-point", MOD,
      "                        new_distribution[inverter_id] = new_power\n", "                        pass\n", "C02.INV"),
 ]
@@ -1575,6 +1698,7 @@ def run_rules(run: Run, prog: Program) -> None:
 def _run_rest(run: Run, prog: Program) -> None:
     _guarded(check_book, run, prog)
     check_soc_agg(run, prog)
+    check_group_bounds(run, prog)
     check_adm(run, prog)
     check_adm_min(run, prog)
     check_adm_order(run, prog)
@@ -1586,7 +1710,7 @@ def _rules_for(rule_id: str):
     table = {
         "C02.CAP": (check_cap,), "C02.INV": (check_inv,), "C02.AVAIL": (check_cap, check_avail, check_exits),
         "C02.BOOK": (check_book,), "C02.RES": (check_book,), "C02.SOCAGG": (check_soc_agg,),
-        "C02.TAB": (check_tab,), "C02.SIGN": (check_sign,),
+        "C02.TAB": (check_tab,), "C02.SIGN": (check_sign,), "C02.GRP": (check_group_bounds,),
         "C02.ADM": (check_adm, check_adm_min, check_adm_order), "C02.PURE": (check_pure,),
     }
     fns = table.get(rule_id)
@@ -1612,6 +1736,8 @@ def check(run: Run, prog: Program, tier: str) -> str:
     run.rule("C02.BOOK", "per path of the reservation loops the distributed-power ledger changes by what the "
              "cells receive, and deficit covering moves reserve from the donor's entry to the deficit")
     run.rule("C02.SOCAGG", "a group's SoC and its two SoC limits are the same aggregate of the batteries' values")
+    run.rule("C02.GRP", "a battery group's inclusion bounds are the sums of its members' inclusion bounds, its exclusion "
+             "bounds the extreme member bound times the member count, from each battery's own four bounds")
     run.rule("C02.RES", "per allocating path: the reservation ledger grows by max(share, min_power), the share is "
              "(request - reserved) * own ratio / ..., the stored reserve lies in [0, cap - min_power], a share below "
              "min_power records its deficit")
@@ -1630,6 +1756,7 @@ def check(run: Run, prog: Program, tier: str) -> str:
     run.floor("C02.RES", 5)
     run.floor("C02.TAB", 6)
     run.floor("C02.SIGN", 4)
+    run.floor("C02.GRP", 5)
     from ..engine.controls import run_controls
 
     run_controls(run, CONTROLS, run_rules, tier, base_prog=prog, select=_rules_for)
